@@ -68,6 +68,11 @@ var lgTable = []lgEntry{
 	{Rule: "L1", Func: "tensor.(StdEng).StackDense", Site: "$r.denseSimpleStack(", Goal: "%allNoMat", Props: []string{"C10"}, Why: "the block-copy stack reads raw storage of every operand (the accumulator itself is rule LA)"},
 	{Rule: "L1", Func: "tensor.(StdEng).denseRepeat", Site: "fastCopyDenseRepeat(", Decides: []string{"$t.RequiresIterator()"}, Props: []string{"C10"}, Why: "block copies read the operand's raw storage"},
 	{Rule: "L1", Func: "tensor.(StdEng).denseRepeat", Site: "copyDenseSliced(", Decides: []string{"$t.RequiresIterator()"}, Props: []string{"C10"}, Why: "block copies read the operand's raw storage"},
+	{Rule: "L1", Func: "tensor.(StdEng).RepeatReuse", Site: "$r.denseRepeat(", Goal: "(%ok && $reuse.Shape().Eq(%newShape))", Props: []string{"C10", "C13"}, Why: "a reuse destination is accepted only when its shape is the computed result shape: the repeat fills it by the result's geometry, and the returned tensor must have the shape the shape-only calculator predicts"},
+	// ---- mask inspection (C15) -----------------------------------------------------------------------
+	{Rule: "L1", Func: "tensor.doMaskAll", Site: "range %ts.mask", Goal: "(%ts.IsMasked() && (%ts.Size() == len(%ts.mask)))", Props: []string{"C15"}, Why: "the whole-mask fold is the fold over the tensor's elements only when the mask covers exactly those elements (a view's mask window is longer)"},
+	{Rule: "L1", Func: "tensor.doMaskAny", Site: "range %ts.mask", Goal: "(%ts.IsMasked() && (%ts.Size() == len(%ts.mask)))", Props: []string{"C15"}, Why: "the whole-mask fold is the fold over the tensor's elements only when the mask covers exactly those elements"},
+	{Rule: "L1", Func: "tensor.doMaskCt", Site: "range %ts.mask", Goal: "(%ts.IsMasked() && (%ts.Size() == len(%ts.mask)))", Props: []string{"C15"}, Why: "the whole-mask count is the count over the tensor's elements only when the mask covers exactly those elements"},
 	// ---- writers (C14) -------------------------------------------------------------------------------
 	{Rule: "L1", Func: "tensor.(*Dense).WriteNpy", Site: "for ($r.len() > %i)", Decides: []string{"$r.RequiresIterator()"}, Props: []string{"C14", "C16"}, Why: "the flat Get(i) loop emits storage order; .npy is declared C-ordered"},
 	{Rule: "L1", Func: "tensor.(*Dense).GobEncode", Site: ".Encode(&%data)", Decides: []string{"$r.IsMaterializable()"}, Props: []string{"C14"}, Why: "a view's whole storage window is written under the view's shape: the decoder's sanity check rejects it"},
